@@ -47,6 +47,7 @@ type ExchangeOptions struct {
 	Validators bool
 	Defaults   bool
 	Docs       bool // descriptions and deprecated flags on operations, parameters and schemas
+	DenseDocs  bool // with Docs: always the dense variant (else drawn, 1 in 3)
 }
 
 func primSchema(t *rapid.T, eo ExchangeOptions) *Schema {
@@ -89,6 +90,8 @@ var exNames = []string{"a", "b", "c", "id", "name", "value", "kind", "q", "limit
 // several response shapes (codes, patterns, default, headers).
 func GenExchangeDoc(t *rapid.T, eo ExchangeOptions) Doc {
 	opt := Options{MaxDepth: 2, Validators: eo.Validators, Sums: true, AllOf: false, Refs: true, Nullable: true, Maps: true, Defaults: eo.Defaults, Docs: eo.Docs}
+	dense := eo.Docs && (eo.DenseDocs || rapid.IntRange(0, 2).Draw(t, "densedocs") == 0)
+	opt.DocsDense = dense
 	comps := GenComponents(t, opt, rapid.IntRange(1, 4).Draw(t, "ncomp"))
 	doc := Doc{Components: comps}
 	names := comps.Names()
@@ -97,7 +100,7 @@ func GenExchangeDoc(t *rapid.T, eo ExchangeOptions) Doc {
 	for i := 0; i < nops; i++ {
 		op := Operation{ID: fmt.Sprintf("op%d", i), Method: rapid.SampledFrom([]string{"GET", "POST", "PUT", "DELETE", "PATCH"}).Draw(t, "method")}
 		if eo.Docs {
-			op.Description, op.Deprecated = DrawDocs(t)
+			op.Description, op.Deprecated = DrawDocs(t, dense)
 		}
 		path := fmt.Sprintf("/e%d", i)
 		np := rapid.IntRange(0, 4).Draw(t, "nparams")
@@ -136,7 +139,7 @@ func GenExchangeDoc(t *rapid.T, eo ExchangeOptions) Doc {
 				p.Name = "X-" + nm
 			}
 			if eo.Docs {
-				p.Description, p.Deprecated = DrawDocs(t)
+				p.Description, p.Deprecated = DrawDocs(t, dense)
 			}
 			op.Params = append(op.Params, p)
 		}
